@@ -316,6 +316,10 @@ func checkC07(cx *Ctx, r *Report) {
 					if ok1 && ok2 && calleeOf(cx1) != nil && calleeOf(cx1) == calleeOf(cy1) && cx.isWhitespaceNormalizer(calleeOf(cx1)) {
 						okN = true
 					}
+					// the normalised texts may be kept in locals or a slice first (normalised once, compared often)
+					if isStringType(bo.X.Type()) && cx.passesNormalizer(bo.X, 0) && cx.passesNormalizer(bo.Y, 0) {
+						okN = true
+					}
 				}
 			}
 		}
@@ -1166,4 +1170,61 @@ func replacerStripsWhitespace(w *World) bool {
 		}
 	}
 	return found
+}
+
+// passesNormalizer: every value v can hold is the result of a white-space normaliser - directly, or kept in a local, a
+// phi or the elements of a slice made in the function.
+func (cx *Ctx) passesNormalizer(v ssa.Value, depth int) bool {
+	if depth > 6 {
+		return false
+	}
+	switch x := v.(type) {
+	case *ssa.Call:
+		f := calleeOf(x)
+		return f != nil && cx.isWhitespaceNormalizer(f)
+	case *ssa.Phi:
+		for _, e := range x.Edges {
+			if !cx.passesNormalizer(e, depth+1) {
+				return false
+			}
+		}
+		return len(x.Edges) > 0
+	case *ssa.UnOp:
+		if x.Op != token.MUL {
+			return false
+		}
+		switch a := x.X.(type) {
+		case *ssa.Alloc:
+			st := cx.Fx.storesToCell(a)
+			for _, s := range st {
+				if !cx.passesNormalizer(s, depth+1) {
+					return false
+				}
+			}
+			return len(st) > 0
+		case *ssa.IndexAddr:
+			// elements of a slice made here: everything stored into its elements
+			base := a.X
+			if _, isMS := base.(*ssa.MakeSlice); !isMS {
+				return false
+			}
+			n := 0
+			for _, ref := range nonDebugRefs(base) {
+				ia, isIA := ref.(*ssa.IndexAddr)
+				if !isIA {
+					continue
+				}
+				for _, r2 := range nonDebugRefs(ia) {
+					if st, isSt := r2.(*ssa.Store); isSt && st.Addr == ssa.Value(ia) {
+						n++
+						if !cx.passesNormalizer(st.Val, depth+1) {
+							return false
+						}
+					}
+				}
+			}
+			return n > 0
+		}
+	}
+	return false
 }
